@@ -6,7 +6,7 @@
 //!   K <Core> <seedhex> <blocks>        public block core through BlockRngCore::generate
 //!   J <rounds> <salt> <r0,r1,...> | <ops>   JitterRng over a scripted timer (readings as hex)
 //! ops: a = next_u32, b = next_u64, f<n> = fill_bytes(n), j = jump, l = long_jump,
-//!      c = continue on a clone; JitterRng also: s0/s1 = timer_stats(false/true),
+//!      c = continue on a clone; R<k>:<n> = k fills of n bytes; JitterRng also: s0/s1 = timer_stats(false/true),
 //!      r<n> = set_rounds(n), t = test_timer
 //! Output: one line per case: "<index> <digest>" (FNV-1a over every returned value) or
 //! "<index> PANIC <message>"; with --trace every returned value is printed as well.
@@ -58,6 +58,17 @@ macro_rules! plain {
                         let mut buf = vec![0u8; n];
                         self.fill_bytes(&mut buf);
                         d.val("f", &buf);
+                    }
+                    b'R' => {
+                        // R<k>:<n> = k fills of n bytes (long runs past counter-width boundaries)
+                        let (k, n) = op[1..].split_once(':').unwrap();
+                        let (k, n): (usize, usize) = (k.parse().unwrap(), n.parse().unwrap());
+                        let mut buf = vec![0u8; n];
+                        for _ in 0..k {
+                            self.fill_bytes(&mut buf);
+                            d.bytes(&buf);
+                        }
+                        d.val("R", &buf[..n.min(32)]);
                     }
                     b'c' => *self = self.clone(),
                     b'j' => plain!(@jump $j self jump),
